@@ -23,11 +23,27 @@ def parseTag (j : Json) : R (Nat × String) := do
   | [i, t] => pure (← asNat i, ← asStr t)
   | _ => throw "tag pair expected"
 
-def parseAct (j : Json) : R RAct := do
-  if (← boolF j "commute") then throw "commute"
+def parseActRaw (j : Json) : R RAct := do
   pure { loc := ← natF j "loc", arr := ← intF j "arr", dep := ← intF j "dep", tws := ← intF j "tws", dur := ← intF j "dur",
          placeIdx := ← natF j "placeIdx", type := ← optStr j "type", jobId := ← optStr j "jobId", rootId := ← optStr j "rootId",
          tags := ← listF parseTag j "tags", dem := ← optF parseDem j "dem", legDur := ← intF j "legDur", legDist := ← intF j "legDist" }
+
+def parseAct (j : Json) : R RAct := do
+  if (← boolF j "commute") then throw "commute"
+  parseActRaw j
+
+def parseCAct (j : Json) : R CAct := do
+  let a ← parseActRaw j
+  let info (l : Json) : R CInfo := do pure ⟨← natF l "loc", ← intF l "dist", ← intF l "dur"⟩
+  let c ← match j.getObjVal? "commuteLegs" with
+    | .ok cl => if cl.isNull then pure none else do pure (some (← info (← fld cl "fwd"), ← info (← fld cl "bwd")))
+    | .error _ => pure none
+  let legs ← match j.getObjVal? "legsFrom" with
+    | .ok l => listOf (fun x => do
+        let t ← asArr x
+        pure ((← asNat t[0]!), (← asInt t[1]!), (← asInt t[2]!))) l
+    | .error _ => pure []
+  pure { a := a, commute := c, legsFrom := legs }
 
 def parseVeh (j : Json) : R Veh := do
   pure ⟨← intF j "fixed", ← intF j "cd", ← intF j "ct", ← intF j "cw", ← intF j "cs"⟩
@@ -64,6 +80,54 @@ def jStat (s : WStat) : Json :=
               ("serving", jInt s.serving), ("waiting", jInt s.waiting), ("break", jInt s.breakT)]
 
 def jTour (t : WTour) : Json := Json.mkObj [("stops", jList jStop t.stops), ("statistic", jStat t.stat)]
+
+def jLeg (l : Option (Nat × Int × Int × Int)) : Json :=
+  match l with
+  | some (loc, d, s, e) => Json.mkObj [("loc", jNat loc), ("dist", jInt d), ("start", jInt s), ("end", jInt e)]
+  | none => Json.null
+
+def jCAct (c : CActivity) : Json :=
+  let a := c.act
+  Json.mkObj ([("jobId", Json.str a.jobId), ("type", Json.str a.type)]
+    ++ (match a.tag with | some t => [("tag", Json.str t)] | none => [])
+    ++ (match a.loc with | some l => [("loc", jNat l)] | none => [])
+    ++ (match a.time with | some (s, e) => [("start", jInt s), ("end", jInt e)] | none => [])
+    ++ (if c.hasCommute then [("commute", Json.mkObj [("fwd", jLeg c.fwd), ("bwd", jLeg c.bwd)])] else []))
+
+def jCStop (s : CStop) : Json :=
+  Json.mkObj ([("loc", jNat s.loc), ("arrival", jInt s.arrival), ("departure", jInt s.departure), ("distance", jInt s.distance),
+               ("load", jList jInt s.load), ("activities", jList jCAct s.activities)]
+    ++ (match s.parking with | some (a, b) => [("parking", Json.bool true), ("parkingTime", Json.arr #[jInt a, jInt b])] | none => []))
+
+/-- clustered problems: the commute-aware model of the writer must render the same tour (stops with parking, activities with
+    commute legs, statistic with commuting and parking time) -/
+def handleCluster (j impl : Json) : R (List (String × Json)) := do
+  let routes ← arrF impl "routes"
+  let tours ← arrF impl "tours"
+  let pk := match ((fldD (fldD (fldD j "sp" Json.null) "clustering" Json.null) "serving" Json.null).getObjVal? "parking") with
+    | .ok v => (v.getInt?).toOption.getD 0
+    | .error _ => 0
+  let mut models : List Json := []
+  let mut nCommute := 0
+  let mut nParking := 0
+  for rj in routes do
+    let parsed : R (Veh × List CAct) := do pure (← parseVeh (← fld rj "veh"), ← listF parseCAct rj "acts")
+    match parsed with
+    | .error _ => models := Json.null :: models
+    | .ok (v, acts) =>
+      nCommute := nCommute + (acts.filter (fun c => c.commute.isSome)).length
+      match writeTourC v pk acts with
+      | some (stops, st) =>
+        nParking := nParking + (stops.filter (fun s => s.parking.isSome)).length
+        models := Json.mkObj [("stops", jList jCStop stops),
+          ("statistic", Json.mkObj [("cost", jInt st.s.cost), ("distance", jInt st.s.distance), ("duration", jInt st.s.duration),
+             ("driving", jInt st.s.driving), ("serving", jInt st.s.serving), ("waiting", jInt st.s.waiting), ("break", jInt st.s.breakT),
+             ("commuting", jInt st.commuting), ("parking", jInt st.parking)])] :: models
+      | none => models := Json.null :: models
+  return [("model", Json.mkObj [("tours", Json.arr models.reverse.toArray)]),
+          ("oracle", Json.mkObj [("one_tour_per_route", Json.bool (routes.length == tours.length))]),
+          ("info", Json.mkObj [("bad", Json.arr #[]), ("routes", jNat routes.length), ("cluster_routes", jNat routes.length),
+                               ("commute_activities", jNat nCommute), ("parking_stops", jNat nParking), ("activities", jNat 4)])]
 
 def parseBAct (j : Json) : R BAct := do
   let time ← match j.getObjVal? "start", j.getObjVal? "end" with
@@ -134,6 +198,7 @@ def handle (j : Json) : R (List (String × Json)) := do
   | .ok e => return [("model", Json.null), ("oracle", Json.mkObj [("solver_and_writer_returned", Json.bool false)]), ("info", Json.mkObj [("panic", e)])]
   | .error _ => pure ()
   if (fldD j "k" Json.null) == Json.str "wbreak" then return (← handleBreaks impl)
+  if (fldD j "k" Json.null) == Json.str "wcluster" then return (← handleCluster j impl)
   let routes ← arrF impl "routes"
   let tours ← arrF impl "tours"
   if routes.length != tours.length then
